@@ -393,9 +393,10 @@ def run_oracle(states):
             # ---- sparse dump mode -------------------------------------------------------
             if base is None:
                 base, pend = prev, {}
-            if not st.sparse and not check_wf(o, st, size, allcells):
-                return o
+            # summaries first: the same rule is reported whether or not this block is a full dump
             if not light_step(o, prev, st, toks, oom, pend, base.cells):
+                return o
+            if not st.sparse and not check_wf(o, st, size, allcells):
                 return o
             if not st.sparse:
                 # a full dump closes the stretch: everything written since `base` must be there,
@@ -875,7 +876,7 @@ def run_single(ctx, drv, path, wd, label):
     if r["fail"] is not None:
         report_failure(ctx, drv, {"history": hist, "key": r["fail"][1], "op_index": r["fail"][0], "what": r["fail"][2],
                                   "profile": label, "gen_seed": None, "case": os.path.basename(path)}, wd, do_shrink=False)
-    if r["diff"] is not None:
+    if r["diff"] is not None and not any(b.get("name") == "gc-model-vs-gc.c" for b in ctx.broken):
         ctx.correspondence_broken("gc-model-vs-gc.c", dict(r["diff"], case=label + ":" + os.path.basename(path), history=hist[:5000]))
     if r["crash"] is not None and r["fail"] is None:
         ctx.violation("crash:" + r["crash"], "gcdrive on gc.c: %s while executing a valid history" % r["crash"],
@@ -946,6 +947,9 @@ def run(ctx):
         "operation histories generated by driving the extracted Coq model (every emitted op is accepted by "
         "GCModel.step: SOk/SOom); heaps 2..300 cells, 10..2000 ops (thorough: up to 10^4); profiles mixed/tiny/"
         "boundary(every heap size 2..300, allocated-list brought to threshold-1 and threshold of gc_run)/long; "
+        "profile large: heaps of 65535..140000 cells (bulk allocation of > 2^16 cells, gc_run across the trigger, "
+        "collections with few/no roots, refill to out-of-memory) predicted by a reference allocator that is compared "
+        "with the extracted model on small heaps in the same run, dumps in sparse mode; "
         "each history is executed by gcdrive against the tree's gc.c under ASan/UBSan/LSan, dumps compared line "
         "by line with the model and checked by the python property oracle (partition free/allocated, alloc "
         "hands out a free cell, collection keeps exactly the reachable cells unchanged, cells conserved). "
@@ -1035,7 +1039,7 @@ def run(ctx):
         ctx.correspondence_broken("gc-sim-vs-extracted-model", simdiffs[0])
     if errors:
         ctx.correspondence_broken("c09-worker-error", errors[0])
-    if all_diffs:
+    if all_diffs and not any(b.get("name") == "gc-model-vs-gc.c" for b in ctx.broken):
         d = min(all_diffs, key=lambda x: (len(x.get("history", "")), x["op_index"]))
         d = dict(d)
         d["cases_with_differences"] = ndiff_cases
